@@ -51,7 +51,7 @@ class C15(Check):
             is_merge = rng.random() < 0.2
             outs = c1["outs"] + [v for v in c2["outs"] if v not in c1["outs"]]
             keep = [v for v in outs if rng.random() < 0.3]
-            if rng.random() < 0.25:
+            if rng.random() < 0.35:
                 # nearly identical interface-level terms: same variables and constant, one coefficient 6e-6 (relative) away.  Both are
                 # guarantees the result must keep: the half-spaces differ by more than the reading's tolerance inside the box.
                 shared = set(c1["ins"] + c1["outs"]) & set(c2["ins"] + c2["outs"])
@@ -69,7 +69,7 @@ class C15(Check):
                     t = rng.choice(cand)
                     v0 = max(t["c"], key=lambda v: abs(t["c"][v]))
                     nc = dict(t["c"])
-                    nc[v0] = nc[v0] * (1.0 + rng.choice([-1.0, 1.0]) * 6e-6)
+                    nc[v0] = nc[v0] * (1.0 + rng.choice([-1.0, 1.0]) * rng.choice([6e-6, 4e-7]))   # 4e-7: alike to six significant digits
                     c2["g"].append(dict(c=nc, k=t["k"], near=True))
             if is_merge:
                 out.append({"op": "merge", "c1": c1, "c2": c2, "w": w})
